@@ -109,6 +109,8 @@ func (f *storeFamily) name(cc *ssa.CallCommon) string {
 }
 
 func runC13(c *Ctx) {
+	c.R.Rule("RS-no-request-time-state", "request handling writes no state that outlives the request (package-level variables, objects built at start-up, constructor variables captured by handlers) declared in the packages implementing this property", 1)
+	runStateless(c, "RS-no-request-time-state", "pkg/middleware.storedSessionLoader", "pkg/sessions")
 	r := c.R
 	r.Rule("R1-error-discipline", "no store/lock/ping error is dropped: propagated where the function returns an error, examined by a branch elsewhere; reviewed exceptions are structurally checked", 53)
 	r.Rule("R2-cookie-after-persist", "Manager.Save sets the cookie only after saveSession()==nil", 1)
